@@ -16,7 +16,8 @@
 #define NF 6
 #define NR 3
 
-extern FILE *tr;                 /* trace output */
+extern __thread FILE *tr;        /* trace output (thread-local: worker threads of the C15 driver write to their own buffers) */
+extern int rec_threaded;
 extern mpz_t  Zp[NZ];            /* Zp[8+2k], Zp[9+2k] alias the numerator/denominator of Qp[k] (by struct copy-back, see rec.c) */
 extern mpq_t  Qp[NQ];
 extern mpf_t  Fp[NF];
@@ -62,6 +63,7 @@ void fn_in_raw(const char *k, const char *json);               /* pre-formatted 
 void fn_mid(void);                                               /* inputs done; outputs follow (call the function between fn_begin..fn_mid? no: inputs are logged BEFORE the call, outputs after) */
 void fn_out_limbs(const char *k, const mp_limb_t *p, mp_size_t n);
 void fn_out_int(const char *k, long v);
+void fn_out_raw(const char *k, const char *json);
 void fn_out_u64(const char *k, uint64_t v);
 void fn_out_str(const char *k, const char *s);
 void fn_out_strn(const char *k, const char *s, size_t n);
